@@ -69,10 +69,13 @@ def write_source(root, pkg, version):
     os.utime(os.path.join(d, '__init__.py'), (1_600_000_000, 1_600_000_000))
 
 
-def run_process(root, spec):
+def run_process(root, spec, nowrite=False):
     spec = dict(spec, root=root)
+    env = env_for(root)
+    if nowrite:
+        env['PYTHONDONTWRITEBYTECODE'] = '1'     # this interpreter reads the cache files that exist and writes none
     p = subprocess.run([PY, os.path.join(VERIF, 'harness', 'impl', 'c16_run.py'), json.dumps(spec)], capture_output=True,
-                       text=True, env=env_for(root), timeout=120)
+                       text=True, env=env, timeout=120)
     lines = [l for l in p.stdout.splitlines() if l.startswith('{')]
     if p.returncode != 0 or not lines:
         return {'crash': p.stderr[-800:]}
@@ -90,7 +93,7 @@ def run_sequence(workdir, idx, seq):
         if r['version'] != cur:
             write_source(root, 'c16pkg', r['version'])
             cur = r['version']
-        out.append(run_process(root, {'hook': r['hook'], 'pkg': 'c16pkg'}))
+        out.append(run_process(root, {'hook': r['hook'], 'pkg': 'c16pkg'}, nowrite=bool(r.get('nowrite'))))
     shutil.rmtree(root, ignore_errors=True)
     return out
 
@@ -173,13 +176,15 @@ def gen_sequence(rng):
         else:
             hook = {'pep526': rng.random() < 0.6, 'violation': 'C16Violation' if rng.random() < 0.3 else None}
         seq.append({'hook': hook, 'version': version})
+        if rng.random() < 0.3:
+            seq[-1]['nowrite'] = True
     return seq
 
 
 def coq_run(r):
     h = r['hook']
     hk = 'None' if h is None else '(Some {| akey := %d; rkey := %d |})' % (1 if h['pep526'] else 0, 1 if h['violation'] else 0)
-    return '(%s, %d)' % (hk, r['version'])
+    return '(%s, %d, %s)' % (hk, r['version'], 'false' if r.get('nowrite') else 'true')
 
 
 def coq_obs(o):
